@@ -8,7 +8,7 @@
 
 #![allow(missing_docs)]
 
-use crate::par::par_empty::ParEmpty;
+pub use crate::par::par_empty::ParEmpty;
 use orx_concurrent_iter::{ConcurrentIter, ConcurrentIterX, HasMore};
 use std::sync::OnceLock;
 use std::thread::{Scope, ScopedJoinHandle};
